@@ -376,4 +376,185 @@ theorem setPerfCounterTLV_eq (hun : 8 ≤ (base.uninit 8).length) :
   simp only [hb _ hun, wr_zero_one, wr_one_one, wr_two, tlvPerf, tlv, be_length, X.tlvPerfCounter_val]
   simp
 
+/-- the string TLVs for ANY behaviour of the getter: type, then as length byte min(returned, cap), then whatever the port stored -/
+theorem setHostnameTLV_gen (env : TW.Env) :
+    (TW.setHostnameTLV env (pre ++ w0 :: w1 :: rest) pre.length).buffer
+      = pre ++ (15 :: (min (env.get_hostname.retN % 18446744073709551616) 32) ::
+          (env.get_hostname.out.take 32 ++ rest.drop (env.get_hostname.out.take 32).length))
+    ∧ (TW.setHostnameTLV env (pre ++ w0 :: w1 :: rest) pre.length).ret = 2 + min (env.get_hostname.retN % 18446744073709551616) 32 := by
+  by_cases hx : env.get_hostname.retN % 18446744073709551616 > 32
+  · have e : min (env.get_hostname.retN % 18446744073709551616) 32 = 32 := by omega
+    simp only [TW.setHostnameTLV, Nat.zero_add, Nat.add_zero, le_one, wr_off, wr_off0, wr_zero_one, wr_two, hx, decide_true, if_true,
+      wr_one_one, e]
+    simp
+  · have e : min (env.get_hostname.retN % 18446744073709551616) 32 = env.get_hostname.retN % 18446744073709551616 := by omega
+    have e1 : env.get_hostname.retN % 18446744073709551616 % 256 = env.get_hostname.retN % 18446744073709551616 := Nat.mod_eq_of_lt (by omega)
+    have e2 : (2 + env.get_hostname.retN % 18446744073709551616) % 18446744073709551616 = 2 + env.get_hostname.retN % 18446744073709551616 :=
+      Nat.mod_eq_of_lt (by omega)
+    simp only [TW.setHostnameTLV, Nat.zero_add, Nat.add_zero, le_one, wr_off, wr_off0, wr_zero_one, wr_two, hx, decide_false, Bool.false_eq_true,
+      if_false, wr_one_one, e, e1, e2]
+    simp
+
+theorem setSSIDTLV_gen (env : TW.Env) :
+    (TW.setSSIDTLV env (pre ++ w0 :: w1 :: rest) pre.length).buffer
+      = pre ++ (6 :: (min (env.get_ssid.retN % 18446744073709551616) 32) ::
+          (env.get_ssid.out.take 32 ++ rest.drop (env.get_ssid.out.take 32).length))
+    ∧ (TW.setSSIDTLV env (pre ++ w0 :: w1 :: rest) pre.length).ret = 2 + min (env.get_ssid.retN % 18446744073709551616) 32 := by
+  by_cases hx : env.get_ssid.retN % 18446744073709551616 > 32
+  · have e : min (env.get_ssid.retN % 18446744073709551616) 32 = 32 := by omega
+    simp only [TW.setSSIDTLV, Nat.zero_add, Nat.add_zero, le_one, wr_off, wr_off0, wr_zero_one, wr_two, hx, decide_true, if_true,
+      wr_one_one, e]
+    simp
+  · have e : min (env.get_ssid.retN % 18446744073709551616) 32 = env.get_ssid.retN % 18446744073709551616 := by omega
+    have e1 : env.get_ssid.retN % 18446744073709551616 % 256 = env.get_ssid.retN % 18446744073709551616 := Nat.mod_eq_of_lt (by omega)
+    have e2 : (2 + env.get_ssid.retN % 18446744073709551616) % 18446744073709551616 = 2 + env.get_ssid.retN % 18446744073709551616 :=
+      Nat.mod_eq_of_lt (by omega)
+    simp only [TW.setSSIDTLV, Nat.zero_add, Nat.add_zero, le_one, wr_off, wr_off0, wr_zero_one, wr_two, hx, decide_false, Bool.false_eq_true,
+      if_false, wr_one_one, e, e1, e2]
+    simp
+
+/-- what a string getter reports (the bytes copied, or the full length - both occur in ports) clamps to the number of bytes stored -/
+theorem str_min (l : List Nat) (full : Bool) (hl : l.length < 18446744073709551616) :
+    min ((if full = true then l.length else (l.take 32).length) % 18446744073709551616) 32 = (l.take 32).length := by
+  have ht : (l.take 32).length = min 32 l.length := List.length_take
+  cases full
+  · simp only [Bool.false_eq_true, if_false, ht]
+    rw [Nat.mod_eq_of_lt (by omega)]; omega
+  · simp only [if_true, ht, Nat.mod_eq_of_lt hl]; omega
+
+theorem setHostnameTLV_eq (hl : g.host.length < 18446744073709551616) :
+    (TW.setHostnameTLV (envOf c g base) (pre ++ w0 :: w1 :: rest) pre.length).buffer
+      = pre ++ (tlvHostname g ++ rest.drop (g.host.take 32).length)
+    ∧ (TW.setHostnameTLV (envOf c g base) (pre ++ w0 :: w1 :: rest) pre.length).ret = 2 + (g.host.take 32).length := by
+  have h := setHostnameTLV_gen pre rest w0 w1 (envOf c g base)
+  have hm : min ((envOf c g base).get_hostname.retN % 18446744073709551616) 32 = (g.host.take 32).length := str_min g.host g.hostFull hl
+  rw [hm] at h
+  refine ⟨?_, h.2⟩
+  rw [h.1]; simp [envOf, tlvHostname, tlv]
+
+theorem setSSIDTLV_eq (hl : c.ssid.length < 18446744073709551616) :
+    (TW.setSSIDTLV (envOf c g base) (pre ++ w0 :: w1 :: rest) pre.length).buffer
+      = pre ++ (tlvSsid c ++ rest.drop (c.ssid.take 32).length)
+    ∧ (TW.setSSIDTLV (envOf c g base) (pre ++ w0 :: w1 :: rest) pre.length).ret = 2 + (c.ssid.take 32).length := by
+  have h := setSSIDTLV_gen pre rest w0 w1 (envOf c g base)
+  have hm : min ((envOf c g base).get_ssid.retN % 18446744073709551616) 32 = (c.ssid.take 32).length := str_min c.ssid c.ssidFull hl
+  rw [hm] at h
+  refine ⟨?_, h.2⟩
+  rw [h.1]; simp [envOf, tlvSsid, tlv]
+
+theorem setIconImageTLV_eq :
+    (TW.setIconImageTLV base (pre ++ w0 :: w1 :: rest) pre.length).buffer = pre ++ (tlvIcon ++ rest)
+    ∧ (TW.setIconImageTLV base (pre ++ w0 :: w1 :: rest) pre.length).ret = 2 := by
+  simp [TW.setIconImageTLV, wr_off, wr_off0, tlvIcon, tlv]
+
+theorem setFriendlyNameTLV_eq :
+    (TW.setFriendlyNameTLV base (pre ++ w0 :: w1 :: rest) pre.length).buffer = pre ++ (tlvFriendly ++ rest)
+    ∧ (TW.setFriendlyNameTLV base (pre ++ w0 :: w1 :: rest) pre.length).ret = 2 := by
+  simp [TW.setFriendlyNameTLV, wr_off, wr_off0, tlvFriendly, tlv]
+
+theorem setEndOfPropertyTLV_eq :
+    (TW.setEndOfPropertyTLV base (pre ++ w0 :: rest) pre.length).buffer = pre ++ ([X.eop] ++ rest)
+    ∧ (TW.setEndOfPropertyTLV base (pre ++ w0 :: rest) pre.length).ret = 1 := by
+  simp [TW.setEndOfPropertyTLV, wr_off0]
+
+theorem setQosCharacteristicsTLV_eq :
+    (TW.setQosCharacteristicsTLV base (pre ++ w0 :: w1 :: rest) pre.length).buffer = pre ++ (tlvQos ++ rest.drop 4)
+    ∧ (TW.setQosCharacteristicsTLV base (pre ++ w0 :: w1 :: rest) pre.length).ret = 6 := by
+  have hv : ((toU 32 (((Int.toNat (((Int.toNat (32768 : Int)) ||| (Int.toNat (8192 : Int)) : Nat) : Int)) ||| (Int.toNat (16384 : Int)) : Nat) : Int))
+      <<< (Int.toNat (16 : Int))) % 4294967296 = 3758096384 := by decide
+  have hq : tlvQos = [20, 4] ++ be 4 3758096384 := by decide
+  simp only [TW.setQosCharacteristicsTLV, Nat.zero_add, Nat.add_zero, le_one, wr_off, wr_off0, hv, htonl_bytes _ 3758096384 (by decide),
+    rd_be, wr_zero_one, wr_one_one, wr_two, hq, be_length]
+  simp
+
+theorem setWirelessTLV_eq (hw : c.wifi = true) (hm : c.mode < 256) :
+    (TW.setWirelessTLV (envOf c g base) (pre ++ w0 :: w1 :: rest) pre.length).buffer = pre ++ (tlvWifiMode c ++ rest.drop 1)
+    ∧ (TW.setWirelessTLV (envOf c g base) (pre ++ w0 :: w1 :: rest) pre.length).ret = 3 := by
+  have h1 : unle (wr (le 1 0) 0 (([c.mode] : List Nat).take 1)) = c.mode := by
+    simp [wr, le, unle]
+  have h2 : (toSI 32 (0 : Int) != (0 : Int)) = false := by decide
+  have h3 : unle [c.mode] = c.mode := by simp [unle]
+  simp only [TW.setWirelessTLV, envOf, hw, if_true, h1, h2, h3, Bool.false_eq_true, if_false, Nat.zero_add, Nat.add_zero, le_one, wr_off, wr_off0,
+    wr_zero_one, wr_one_one, wr_two, tlvWifiMode, tlv, X.tlvWifiMode_val, Nat.mod_eq_of_lt hm]
+  simp [unle, Nat.mod_eq_of_lt hm]
+
+/-- an interface that is not wireless: the getter fails and nothing at all is written -/
+theorem setWirelessTLV_wired (buf : List Nat) (off : Nat) (hw : c.wifi = false) :
+    (TW.setWirelessTLV (envOf c g base) buf off).buffer = buf ∧ (TW.setWirelessTLV (envOf c g base) buf off).ret = 0 := by
+  have h2 : (toSI 32 (-1 : Int) != (0 : Int)) = true := by decide
+  simp [TW.setWirelessTLV, envOf, hw, h2]
+
+theorem setBSSIDTLV_eq (hc : CfgOk c) (hun : 6 ≤ (base.uninit 6).length) :
+    (TW.setBSSIDTLV (envOf c g base) (pre ++ w0 :: w1 :: rest) pre.length).buffer
+      = (if c.failBssid then pre ++ w0 :: w1 :: rest else pre ++ (tlv X.tlvBssid c.bssid ++ rest.drop 6))
+    ∧ (TW.setBSSIDTLV (envOf c g base) (pre ++ w0 :: w1 :: rest) pre.length).ret = (if c.failBssid then 0 else 8) := by
+  cases hf : c.failBssid
+  · have h2 : (toSI 32 (0 : Int) != (0 : Int)) = false := by decide
+    have hb : rd (wr (base.uninit 6) 0 (c.bssid.take 6)) 0 6 = c.bssid := by
+      rw [List.take_of_length_le (by rw [hc.bssid6]; exact Nat.le_refl 6)]
+      simp [wr, rd, hc.bssid6]
+    simp only [TW.setBSSIDTLV, envOf, hf, Bool.false_eq_true, if_false, h2, hb, Nat.zero_add, Nat.add_zero, le_one, wr_off, wr_off0,
+      wr_zero_one, wr_one_one, wr_two, tlv, X.tlvBssid_val, hc.bssid6]
+    simp
+  · have h2 : (toSI 32 (-1 : Int) != (0 : Int)) = true := by decide
+    simp [TW.setBSSIDTLV, envOf, hf, h2]
+
+theorem setWifiMaxRateTLV_eq (hr : c.rate < 65536) :
+    (TW.setWifiMaxRateTLV (envOf c g base) (pre ++ w0 :: w1 :: rest) pre.length).buffer = pre ++ (tlvRate c ++ rest.drop 2)
+    ∧ (TW.setWifiMaxRateTLV (envOf c g base) (pre ++ w0 :: w1 :: rest) pre.length).ret = 4 := by
+  have hs : unle (wr (le 2 0) 0 ((if c.failRate = true then [] else le 2 c.rate).take 2)) = (if c.failRate = true then 0 else c.rate) := by
+    cases c.failRate
+    · simp only [Bool.false_eq_true, if_false]; exact scalar_ok 2 c.rate (by omega)
+    · simp only [if_true]; exact scalar_fail2
+  have hlt : (if c.failRate = true then 0 else c.rate) < 65536 := by
+    split
+    · decide
+    · exact hr
+  simp only [TW.setWifiMaxRateTLV, envOf, Nat.zero_add, Nat.add_zero, le_one, wr_off, wr_off0, hs, htons_bytes _ _ hlt,
+    rd_be, wr_zero_one, wr_one_one, wr_two, tlvRate, tlv, be_length, X.tlvWifiMaxRate_val]
+  simp
+
+theorem rssi_scalar (fail : Bool) (r : Int) (hlo : -128 ≤ r) (hhi : r ≤ 127) :
+    toU 32 (toS 8 (unle (wr (le 1 (toU 8 (0 : Int))) 0 ((if fail = true then [] else [toU 8 r]).take 1)))) = i8ToU32 (if fail = true then 0 else r) := by
+  cases fail
+  · simp only [Bool.false_eq_true, if_false]
+    have e : unle (wr (le 1 (toU 8 (0 : Int))) 0 (([toU 8 r] : List Nat).take 1)) = toU 8 r := by simp [wr, unle]
+    rw [e]
+    unfold toS toU i8ToU32
+    have p8 : ((2 ^ 8 : Nat) : Int) = 256 := by decide
+    have p32 : ((2 ^ 32 : Nat) : Int) = 4294967296 := by decide
+    simp only [p8, p32, show (2:Nat)^8 = 256 from rfl, show (2:Nat)^(8-1) = 128 from rfl]
+    by_cases hn : r < 0
+    · have a : Int.toNat (r % 256) = Int.toNat (r + 256) := by omega
+      rw [a]
+      have b : (r + 256).toNat % 256 = (r + 256).toNat := by omega
+      rw [b]
+      have cnd : ¬ ((r + 256).toNat < 128) := by omega
+      simp only [cnd, if_false, hn, if_true]
+      omega
+    · have a : Int.toNat (r % 256) = Int.toNat r := by omega
+      rw [a]
+      have b : r.toNat % 256 = r.toNat := by omega
+      rw [b]
+      have cnd : r.toNat < 128 := by omega
+      simp only [cnd, if_true, hn, if_false]
+      omega
+  · simp only [if_true]; decide
+
+theorem setWifiRssiTLV_eq (hlo : -128 ≤ c.rssi) (hhi : c.rssi ≤ 127) :
+    (TW.setWifiRssiTLV (envOf c g base) (pre ++ w0 :: w1 :: rest) pre.length).buffer = pre ++ (tlvRssi c ++ rest.drop 4)
+    ∧ (TW.setWifiRssiTLV (envOf c g base) (pre ++ w0 :: w1 :: rest) pre.length).ret = 6 := by
+  have hlt : i8ToU32 (if c.failRssi = true then 0 else c.rssi) < 4294967296 := by
+    unfold i8ToU32; split <;> split <;> omega
+  have hs := rssi_scalar c.failRssi c.rssi hlo hhi
+  have hout : (envOf c g base).get_wifi_rssi_dbm.out = (if c.failRssi = true then [] else [toU 8 c.rssi]) := rfl
+  have hw : le 4 (TW.lltd_htonl (envOf c g base) (toU 32 (toS 8 (unle (wr (le 1 (toU 8 (0 : Int))) 0
+      ((if c.failRssi = true then [] else [toU 8 c.rssi]).take 1)))))).ret = be 4 (i8ToU32 (if c.failRssi = true then 0 else c.rssi)) := by
+    rw [hs]; exact htonl_bytes _ _ hlt
+  simp only [TW.setWifiRssiTLV, hout]
+  simp only [hw]
+  simp only [Nat.zero_add, Nat.add_zero, le_one, wr_off, wr_off0,
+    rd_be, wr_zero_one, wr_one_one, wr_two, tlvRssi, tlv, be_length, X.tlvWifiRssi_val]
+  simp
+
 end tlvs
